@@ -44,7 +44,8 @@ def mutate_value(rng, ir, t, v, depth=0):
     r = rng.random()
     alien = [None, 1, -1, 1.5, "abc", "", True, [], [1], {}, {"zz": 1}, EnumLit("NOT_A_VALUE"), 2147483648,
              -2147483649, "3", "2.5", 3.0, [None], [[1]], {"a": {"b": 1}}, EnumLit("true_"), 10 ** 20,
-             float("inf"), float("-inf"), float("nan"), "Infinity", "-inf", "nan", "1e400", 10 ** 400]
+             float("inf"), float("-inf"), float("nan"), "Infinity", "-inf", "nan", "1e400", 10 ** 400,
+             "50%", "%s", "%(x)s", "{0}"]
     if isinstance(v, dict) and v and r < 0.6:
         v = copy.deepcopy(v)
         op = rng.choice(["del", "add", "null", "inner", "inner"])
